@@ -22,7 +22,8 @@ RULE = ("Hypothesis-generated graph cases over nested packages (depth 0-3) with 
         "\"$@\", COND_*; one task also runs a real python probe importing conductor.lib. Oracle = contract computed by the model "
         "(declared order; each dep's directory = the COND_OUT it received in this invocation if it ran, else the directory of its "
         "newest recorded version). Non-trivial = a task with >=2 deps of different kinds, or a dep shared by >=2 dependents, or a "
-        "dependent that sees a cached version. Distinct = SHA-1 of case JSON.")
+        "dependent that sees a cached version. Distinct = SHA-1 of case JSON."
+        " Also generated: Conductor started with COND_NAME/COND_OUT/COND_DEPS/COND_SLOT already set (nested `cond run`); COND files that modify the lists/dicts they passed to a constructor after the call.")
 ASSUMPTIONS = ["git is disabled (C05 checks the selection rule); the cached version of an experiment is its newest recorded one",
                "args/options that travel through a real bash are shell-inert tokens; arbitrary strings are checked at the exec boundary",
                "the command string is compared after whitespace splitting (token sequence), not byte for byte"]
